@@ -313,6 +313,19 @@ Definition step (s : st) (o e : line) : st * outline :=
       | Some (RC pol sh c) => (reg_set s r2 (RC pol sh c), (dump_c c, []))
       | _ => (s, (refused, []))
       end
+  | 36 :: r :: r2 :: ord :: path :: seed :: _ =>              (* r2 := deserialize(serialize(compact(r, ordered))), bytes or stream
+                                                                 path (ignored): the same sketch, if the seed hash is accepted *)
+      match reg_get s r with
+      | Some g => match view g with
+                  | Some (pol, sh, c0) =>
+                      let c := compact_of_compact sm c0 (negb (ord =? 0)) in
+                      let checked := if 0 <? pol then negb (length (c_entries c) =? 0)%nat else negb (c_empty c) in
+                      if checked && negb (sh =? compute_seed_hash (z_to_u64 seed))%N then (s, (refused, []))
+                      else set_dump s r2 pol sh c
+                  | None => (s, (refused, []))
+                  end
+      | None => (s, (refused, []))
+      end
   | 7 :: r :: _ =>                                            (* query: head and the sorted (key, summary) pairs *)
       match reg_get s r with
       | Some g => match view g with
